@@ -196,6 +196,10 @@ def compare_step(case, op, impl_step, model_step, projection):
         elif io[0] == 0 and (io[1] or None) != (mo[1] or None) and op[0] == 'pop':
             diffs.append(f'return value impl={io[1]} model={mo[1]}')
     idump, mdump = impl_step['dump'], model_step['dump']
+    for oi, a in enumerate(idump['objs']):
+        if a.get('bad_index'):
+            diffs.append(f'obj{oi}: index() of features {a["bad_index"]} disagrees with the position of iteration '
+                         f'(the model\'s unique collections are duplicate-free lists whose index is the position)')
     for oi, (a, b) in enumerate(zip(idump['objs'], mdump['objs'])):
         if 'values' in projection and a['feats'] != b['feats']:
             for fi in a['feats']:
